@@ -206,7 +206,12 @@ def files_job(job) -> dict:
             for d in sorted(x.name for x in parent.iterdir() if x.is_dir()):
                 events.append({"e": "predir", "name": d})
             save = job["save"]
-            buckets = [(list(d.keys())[0].split(".")[1], list(d.values())[0]) for d in save]
+            merged: dict = {}          # bucket -> requested formats (a bucket may be named in several entries)
+            for d in save:
+                for key, fmts in d.items():
+                    lst = merged.setdefault(key.split(".")[1], [])
+                    lst += [f for f in fmts if f not in lst]
+            buckets = list(merged.items())
             owns = []
             for rep in range(job.get("repeat", 1)):
                 p = rep + 1
